@@ -292,6 +292,18 @@ pub fn corpus(tier: Tier) -> (Vec<C19Program>, u64, serde_json::Value) {
         b.name = "En".into();
         out.push(C19Program { label: format!("B{}", n), k: 0, spec: b });
     }
+    // SOLO: every derive alone on an enum that carries strum attributes at both levels (each derive has to register the
+    // helper attributes itself; next to another strum derive a missing registration goes unnoticed)
+    for d in ["EnumString", "Display", "AsRefStr", "IntoStaticStr", "VariantNames", "EnumCount", "EnumMessage", "EnumProperty", "EnumIs", "EnumTryAs", "EnumDiscriminants", "EnumIter", "FromRepr", "VariantArray", "EnumTable"] {
+        let mut b = EnumSpec::base(3);
+        b.name = "En".into();
+        b.serialize_all = Some("snake_case".into());
+        b.variants[1].disabled = true;
+        b.variants[2].serialize = vec!["zz".into()];
+        b.variants[0].docs = vec![(" doc".into(), DocForm::Comment)];
+        b.syntax.push(format!("solo:{}", d));
+        out.push(C19Program { label: format!("SOLO: only derive({}) on an enum with enum- and variant-level strum attributes", d), k: 1, spec: b });
+    }
     // SCALE: 20-variant enums (code paths that depend on the number of variants), three feature mixes
     for mix in 0..3usize {
         let mut b = EnumSpec::base(0);
@@ -384,7 +396,8 @@ pub fn render(p: &C19Program, cfg: &str, idx: usize) -> String {
         spec.parse_err = false;
         spec.extra_attrs.push("#[strum(parse_err_ty = crate::MyErr, parse_err_fn = crate::my_err)]".into());
     }
-    let derives: Vec<String> = admissible(&spec).iter().map(|d| format!("{}::{}", strum, d)).collect();
+    let solo: Option<String> = spec.syntax.iter().find_map(|x| x.strip_prefix("solo:").map(|y| y.to_string()));
+    let derives: Vec<String> = admissible(&spec).iter().filter(|d| solo.as_deref().map(|o| o == **d).unwrap_or(true)).map(|d| format!("{}::{}", strum, d)).collect();
     let mut all: Vec<String> = derives;
     let fieldless = spec.variants.iter().all(|v| v.kind.is_unit());
     if (fieldless && spec.generics.is_empty()) || spec.use_phf {
